@@ -52,6 +52,38 @@ def run(ctx: Ctx, rep: Report) -> None:
     # contraction are the same expressions (shared with C06)
     from .C06 import clone_rule
     clone_rule(ctx, rep)
+    # loops index a table over the table's own domain
+    from ..rules.rangedom import rule_rangedom
+    rule_rangedom(ctx, rep, ('bqskit/qis/',), 3)
+    perm_sort(ctx, rep)
+
+
+def perm_sort(ctx: Ctx, rep: Report) -> None:
+    """SORTALL: PermutationMatrix.from_qudit_location completes the location
+    to a permutation of all qudits and sorts it with swaps, recording every
+    swap; the sorting loop has to visit every position of the *completed*
+    permutation (a location shorter than the register leaves a tail that
+    may still be out of order after len(location) steps)."""
+    f = ctx.fn('bqskit/qis/permutation.py:PermutationMatrix.'
+               'from_qudit_location')
+    rep.seen(f.qualname)
+    loops = [lp for lp in ast.walk(f.node) if isinstance(lp, ast.For) and any(
+        isinstance(c, ast.Call) and norm(c.func).endswith('.apply_left')
+        for c in ast.walk(lp))]
+    rep.count()
+    ok = len(loops) == 1 and norm(loops[0].iter) in (
+        'enumerate(current_perm)', 'range(num_qudits)',
+        'range(len(current_perm))')
+    rep.check(
+        ok, 'SORTALL', 'PermutationMatrix.from_qudit_location', f.path,
+        f.lineno, 'the swap-sort visits every position of the completed '
+        'permutation',
+        'the loop that sorts the completed permutation iterates `'
+        + (norm(loops[0].iter) if loops else '?')
+        + '`, not every position of `current_perm`: for a partial location '
+        'the unlisted tail can stay unsorted and the matrix returned is a '
+        'different permutation', key='all-positions',
+    )
 
 
 def sym(ctx: Ctx, rep: Report) -> None:
